@@ -54,7 +54,7 @@ Inductive event :=
 | EvStart (j : jid) | EvSkip (j : jid) (e : err) | EvEnd (j : jid) (o : outcome) | EvPost (j : jid) | EvWExit (w : wid)
 | EvCancel (c : ctxid).
 
-Record st := {
+Record core := {
   enq : list jid;                     (* enqueuec, capacity 1 *)
   enq_closed : bool;                  (* Wait closed enqueuec *)
   donec : list (jid * option err);    (* donec, capacity N; received in any order (superset of FIFO) *)
@@ -66,40 +66,41 @@ Record st := {
   serr : list err;                    (* s.err: nil, one error, or a multierr list *)
   workers : list wst;
   cp : cpc;
-  cancelled : list ctxid;
-  log : list event                    (* ghost: history, newest first *)
+  cancelled : list ctxid
 }.
 
-Definition set_enq (v : list jid) (s : st) : st :=
-  {| enq := v; enq_closed := enq_closed s; donec := donec s; lp := lp s; ready := ready s; ongoing := ongoing s; pending := pending s; waiting := waiting s; enq_nil := enq_nil s; jobs := jobs s; serr := serr s; workers := workers s; cp := cp s; cancelled := cancelled s; log := log s |}.
-Definition set_enq_closed (v : bool) (s : st) : st :=
-  {| enq := enq s; enq_closed := v; donec := donec s; lp := lp s; ready := ready s; ongoing := ongoing s; pending := pending s; waiting := waiting s; enq_nil := enq_nil s; jobs := jobs s; serr := serr s; workers := workers s; cp := cp s; cancelled := cancelled s; log := log s |}.
-Definition set_donec (v : list (jid * option err)) (s : st) : st :=
-  {| enq := enq s; enq_closed := enq_closed s; donec := v; lp := lp s; ready := ready s; ongoing := ongoing s; pending := pending s; waiting := waiting s; enq_nil := enq_nil s; jobs := jobs s; serr := serr s; workers := workers s; cp := cp s; cancelled := cancelled s; log := log s |}.
-Definition set_lp (v : lpc) (s : st) : st :=
-  {| enq := enq s; enq_closed := enq_closed s; donec := donec s; lp := v; ready := ready s; ongoing := ongoing s; pending := pending s; waiting := waiting s; enq_nil := enq_nil s; jobs := jobs s; serr := serr s; workers := workers s; cp := cp s; cancelled := cancelled s; log := log s |}.
-Definition set_ready (v : list jid) (s : st) : st :=
-  {| enq := enq s; enq_closed := enq_closed s; donec := donec s; lp := lp s; ready := v; ongoing := ongoing s; pending := pending s; waiting := waiting s; enq_nil := enq_nil s; jobs := jobs s; serr := serr s; workers := workers s; cp := cp s; cancelled := cancelled s; log := log s |}.
-Definition set_ongoing (v : Z) (s : st) : st :=
-  {| enq := enq s; enq_closed := enq_closed s; donec := donec s; lp := lp s; ready := ready s; ongoing := v; pending := pending s; waiting := waiting s; enq_nil := enq_nil s; jobs := jobs s; serr := serr s; workers := workers s; cp := cp s; cancelled := cancelled s; log := log s |}.
-Definition set_pending (v : Z) (s : st) : st :=
-  {| enq := enq s; enq_closed := enq_closed s; donec := donec s; lp := lp s; ready := ready s; ongoing := ongoing s; pending := v; waiting := waiting s; enq_nil := enq_nil s; jobs := jobs s; serr := serr s; workers := workers s; cp := cp s; cancelled := cancelled s; log := log s |}.
-Definition set_waiting (v : Z) (s : st) : st :=
-  {| enq := enq s; enq_closed := enq_closed s; donec := donec s; lp := lp s; ready := ready s; ongoing := ongoing s; pending := pending s; waiting := v; enq_nil := enq_nil s; jobs := jobs s; serr := serr s; workers := workers s; cp := cp s; cancelled := cancelled s; log := log s |}.
-Definition set_enq_nil (v : bool) (s : st) : st :=
-  {| enq := enq s; enq_closed := enq_closed s; donec := donec s; lp := lp s; ready := ready s; ongoing := ongoing s; pending := pending s; waiting := waiting s; enq_nil := v; jobs := jobs s; serr := serr s; workers := workers s; cp := cp s; cancelled := cancelled s; log := log s |}.
-Definition set_jobs (v : list jst) (s : st) : st :=
-  {| enq := enq s; enq_closed := enq_closed s; donec := donec s; lp := lp s; ready := ready s; ongoing := ongoing s; pending := pending s; waiting := waiting s; enq_nil := enq_nil s; jobs := v; serr := serr s; workers := workers s; cp := cp s; cancelled := cancelled s; log := log s |}.
-Definition set_serr (v : list err) (s : st) : st :=
-  {| enq := enq s; enq_closed := enq_closed s; donec := donec s; lp := lp s; ready := ready s; ongoing := ongoing s; pending := pending s; waiting := waiting s; enq_nil := enq_nil s; jobs := jobs s; serr := v; workers := workers s; cp := cp s; cancelled := cancelled s; log := log s |}.
-Definition set_workers (v : list wst) (s : st) : st :=
-  {| enq := enq s; enq_closed := enq_closed s; donec := donec s; lp := lp s; ready := ready s; ongoing := ongoing s; pending := pending s; waiting := waiting s; enq_nil := enq_nil s; jobs := jobs s; serr := serr s; workers := v; cp := cp s; cancelled := cancelled s; log := log s |}.
-Definition set_cp (v : cpc) (s : st) : st :=
-  {| enq := enq s; enq_closed := enq_closed s; donec := donec s; lp := lp s; ready := ready s; ongoing := ongoing s; pending := pending s; waiting := waiting s; enq_nil := enq_nil s; jobs := jobs s; serr := serr s; workers := workers s; cp := v; cancelled := cancelled s; log := log s |}.
-Definition set_cancelled (v : list ctxid) (s : st) : st :=
-  {| enq := enq s; enq_closed := enq_closed s; donec := donec s; lp := lp s; ready := ready s; ongoing := ongoing s; pending := pending s; waiting := waiting s; enq_nil := enq_nil s; jobs := jobs s; serr := serr s; workers := workers s; cp := cp s; cancelled := v; log := log s |}.
-Definition set_log (v : list event) (s : st) : st :=
-  {| enq := enq s; enq_closed := enq_closed s; donec := donec s; lp := lp s; ready := ready s; ongoing := ongoing s; pending := pending s; waiting := waiting s; enq_nil := enq_nil s; jobs := jobs s; serr := serr s; workers := workers s; cp := cp s; cancelled := cancelled s; log := v |}.
+(* full state: the scheduler's state plus the ghost history (newest first).
+   The history is kept outside [core] so that [stepc] cannot read it. *)
+Record st := { core_of :> core; log : list event }.
+
+Definition set_enq (v : list jid) (s : core) : core :=
+  {| enq := v; enq_closed := enq_closed s; donec := donec s; lp := lp s; ready := ready s; ongoing := ongoing s; pending := pending s; waiting := waiting s; enq_nil := enq_nil s; jobs := jobs s; serr := serr s; workers := workers s; cp := cp s; cancelled := cancelled s |}.
+Definition set_enq_closed (v : bool) (s : core) : core :=
+  {| enq := enq s; enq_closed := v; donec := donec s; lp := lp s; ready := ready s; ongoing := ongoing s; pending := pending s; waiting := waiting s; enq_nil := enq_nil s; jobs := jobs s; serr := serr s; workers := workers s; cp := cp s; cancelled := cancelled s |}.
+Definition set_donec (v : list (jid * option err)) (s : core) : core :=
+  {| enq := enq s; enq_closed := enq_closed s; donec := v; lp := lp s; ready := ready s; ongoing := ongoing s; pending := pending s; waiting := waiting s; enq_nil := enq_nil s; jobs := jobs s; serr := serr s; workers := workers s; cp := cp s; cancelled := cancelled s |}.
+Definition set_lp (v : lpc) (s : core) : core :=
+  {| enq := enq s; enq_closed := enq_closed s; donec := donec s; lp := v; ready := ready s; ongoing := ongoing s; pending := pending s; waiting := waiting s; enq_nil := enq_nil s; jobs := jobs s; serr := serr s; workers := workers s; cp := cp s; cancelled := cancelled s |}.
+Definition set_ready (v : list jid) (s : core) : core :=
+  {| enq := enq s; enq_closed := enq_closed s; donec := donec s; lp := lp s; ready := v; ongoing := ongoing s; pending := pending s; waiting := waiting s; enq_nil := enq_nil s; jobs := jobs s; serr := serr s; workers := workers s; cp := cp s; cancelled := cancelled s |}.
+Definition set_ongoing (v : Z) (s : core) : core :=
+  {| enq := enq s; enq_closed := enq_closed s; donec := donec s; lp := lp s; ready := ready s; ongoing := v; pending := pending s; waiting := waiting s; enq_nil := enq_nil s; jobs := jobs s; serr := serr s; workers := workers s; cp := cp s; cancelled := cancelled s |}.
+Definition set_pending (v : Z) (s : core) : core :=
+  {| enq := enq s; enq_closed := enq_closed s; donec := donec s; lp := lp s; ready := ready s; ongoing := ongoing s; pending := v; waiting := waiting s; enq_nil := enq_nil s; jobs := jobs s; serr := serr s; workers := workers s; cp := cp s; cancelled := cancelled s |}.
+Definition set_waiting (v : Z) (s : core) : core :=
+  {| enq := enq s; enq_closed := enq_closed s; donec := donec s; lp := lp s; ready := ready s; ongoing := ongoing s; pending := pending s; waiting := v; enq_nil := enq_nil s; jobs := jobs s; serr := serr s; workers := workers s; cp := cp s; cancelled := cancelled s |}.
+Definition set_enq_nil (v : bool) (s : core) : core :=
+  {| enq := enq s; enq_closed := enq_closed s; donec := donec s; lp := lp s; ready := ready s; ongoing := ongoing s; pending := pending s; waiting := waiting s; enq_nil := v; jobs := jobs s; serr := serr s; workers := workers s; cp := cp s; cancelled := cancelled s |}.
+Definition set_jobs (v : list jst) (s : core) : core :=
+  {| enq := enq s; enq_closed := enq_closed s; donec := donec s; lp := lp s; ready := ready s; ongoing := ongoing s; pending := pending s; waiting := waiting s; enq_nil := enq_nil s; jobs := v; serr := serr s; workers := workers s; cp := cp s; cancelled := cancelled s |}.
+Definition set_serr (v : list err) (s : core) : core :=
+  {| enq := enq s; enq_closed := enq_closed s; donec := donec s; lp := lp s; ready := ready s; ongoing := ongoing s; pending := pending s; waiting := waiting s; enq_nil := enq_nil s; jobs := jobs s; serr := v; workers := workers s; cp := cp s; cancelled := cancelled s |}.
+Definition set_workers (v : list wst) (s : core) : core :=
+  {| enq := enq s; enq_closed := enq_closed s; donec := donec s; lp := lp s; ready := ready s; ongoing := ongoing s; pending := pending s; waiting := waiting s; enq_nil := enq_nil s; jobs := jobs s; serr := serr s; workers := v; cp := cp s; cancelled := cancelled s |}.
+Definition set_cp (v : cpc) (s : core) : core :=
+  {| enq := enq s; enq_closed := enq_closed s; donec := donec s; lp := lp s; ready := ready s; ongoing := ongoing s; pending := pending s; waiting := waiting s; enq_nil := enq_nil s; jobs := jobs s; serr := serr s; workers := workers s; cp := v; cancelled := cancelled s |}.
+Definition set_cancelled (v : list ctxid) (s : core) : core :=
+  {| enq := enq s; enq_closed := enq_closed s; donec := donec s; lp := lp s; ready := ready s; ongoing := ongoing s; pending := pending s; waiting := waiting s; enq_nil := enq_nil s; jobs := jobs s; serr := serr s; workers := workers s; cp := cp s; cancelled := v |}.
 
 Definition jset_remaining (v : Z) (s : jst) : jst :=
   {| remaining := v; consumers := consumers s; jdone := jdone s; jerr := jerr s; jinvalid := jinvalid s |}.
@@ -112,7 +113,6 @@ Definition jset_jerr (v : option err) (s : jst) : jst :=
 Definition jset_jinvalid (v : bool) (s : jst) : jst :=
   {| remaining := remaining s; consumers := consumers s; jdone := jdone s; jerr := jerr s; jinvalid := v |}.
 
-Definition ev (e : event) (s : st) : st := set_log (e :: log s) s.
 
 Fixpoint upd {A} (n : nat) (f : A -> A) (l : list A) : list A :=
   match l, n with
@@ -121,16 +121,17 @@ Fixpoint upd {A} (n : nat) (f : A -> A) (l : list A) : list A :=
   | x :: t, S n' => x :: upd n' f t
   end.
 
-Definition job (s : st) (j : jid) : jst := nth j (jobs s) jst0.
-Definition wk (s : st) (w : wid) : wst := nth w (workers s) WExit.
+Definition job (s : core) (j : jid) : jst := nth j (jobs s) jst0.
+Definition wk (s : core) (w : wid) : wst := nth w (workers s) WExit.
 
 Definition memc (c : ctxid) (l : list ctxid) : bool := existsb (Nat.eqb c) l.
 
-Definition init (c : cfg) : st :=
+Definition initc (c : cfg) : core :=
   {| enq := []; enq_closed := false; donec := []; lp := LRun; ready := [];
      ongoing := 0; pending := 0; waiting := 0; enq_nil := false;
      jobs := repeat jst0 (length (cprog c)); serr := [];
-     workers := repeat WIdle (cN c); cp := CEnq 0; cancelled := []; log := [] |}.
+     workers := repeat WIdle (cN c); cp := CEnq 0; cancelled := [] |}.
+Definition init (c : cfg) : st := {| core_of := initc c; log := [] |}.
 
 (* scheduler.go:430-439: register the new job k with each dependency *)
 Fixpoint reg_deps (k : jid) (ds : list jid) (js : list jst) : list jst :=
@@ -172,8 +173,8 @@ Definition idle_workers (n : nat) (ongoing : Z) : Z :=
   let idle := (Z.of_nat n - ongoing)%Z in if (idle <? 0)%Z then 0%Z else idle.
 
 (* scheduler.go:505-507, evaluated after every arm of the select *)
-Definition exit_test (s : st) : st :=
-  if (pending s =? 0)%Z && enq_nil s then ev EvLoopExit (set_lp LDrain s) else s.
+Definition exit_test (s : core) (evs : list event) : core * list event :=
+  if (pending s =? 0)%Z && enq_nil s then (set_lp LDrain s, evs ++ [EvLoopExit]) else (s, evs).
 
 Definition res_of (o : outcome) : option err :=
   match o with OOk => None | OErr e => Some (EUser e) | OGoexit => Some EExit end.
@@ -194,14 +195,16 @@ Inductive act :=
 
 Definition is_err (e : err) : bool := match e with EInvalid => false | _ => true end.
 
-Definition step (c : cfg) (s : st) (a : act) : option st :=
+(* one action on the scheduler state; returns the new state and the events it
+   produced, oldest first *)
+Definition stepc (c : cfg) (s : core) (a : act) : option (core * list event) :=
   match a with
   (* ---- caller: Enqueue (scheduler.go:314-327), Wait (518-534) ---- *)
   | ACallerEnq =>
       match cp s, enq s with
       | CEnq k, [] =>
           if k <? length (cprog c)
-          then Some (ev (EvEnqSent k) (set_cp (CEnq (S k)) (set_enq [k] s)))
+          then Some ((set_cp (CEnq (S k)) (set_enq [k] s)), [(EvEnqSent k)])
           else None
       | _, _ => None
       end
@@ -209,7 +212,7 @@ Definition step (c : cfg) (s : st) (a : act) : option st :=
       match cp s with
       | CEnq k =>
           if k =? length (cprog c)
-          then Some (ev EvWaitCalled (set_cp CWait (set_enq_closed true s)))
+          then Some ((set_cp CWait (set_enq_closed true s)), [EvWaitCalled])
           else None
       | _ => None
       end
@@ -217,7 +220,7 @@ Definition step (c : cfg) (s : st) (a : act) : option st :=
       match cp s with
       | CWait =>
           if memc (cwctx c) (cancelled s)
-          then Some (ev (EvRet [ECtx (cwctx c)]) (set_cp (CRet [ECtx (cwctx c)]) s))
+          then Some ((set_cp (CRet [ECtx (cwctx c)]) s), [(EvRet [ECtx (cwctx c)])])
           else None
       | _ => None
       end
@@ -228,7 +231,7 @@ Definition step (c : cfg) (s : st) (a : act) : option st :=
                    | [] => if memc (cwctx c) (cancelled s) then [ECtx (cwctx c)] else []
                    | l => l
                    end in
-          Some (ev (EvRet r) (set_cp (CRet r) s))
+          Some ((set_cp (CRet r) s), [(EvRet r)])
       | _, _ => None
       end
   (* ---- scheduler loop (340-509) ---- *)
@@ -236,9 +239,8 @@ Definition step (c : cfg) (s : st) (a : act) : option st :=
       match lp s, ready s, wk s w with
       | LRun, j :: rest, WIdle =>
           if negb (cgated c) || (ongoing s <? Z.of_nat (cN c))%Z
-          then Some (exit_test (ev (EvDispatch j w)
-                 (set_workers (upd w (fun _ => WGot j) (workers s))
-                 (set_ongoing (ongoing s + 1)%Z (set_ready rest s)))))
+          then Some (exit_test (set_workers (upd w (fun _ => WGot j) (workers s))
+                 (set_ongoing (ongoing s + 1)%Z (set_ready rest s))) [(EvDispatch j w)])
           else None
       | _, _, _ => None
       end
@@ -250,54 +252,53 @@ Definition step (c : cfg) (s : st) (a : act) : option st :=
           let s2 := if (remaining (nth k js jst0) =? 0)%Z
                     then set_ready (ready s1 ++ [k]) s1
                     else set_waiting (waiting s1 + 1)%Z s1 in
-          Some (exit_test (ev (EvEnqRecv k) s2))
+          Some (exit_test s2 [(EvEnqRecv k)])
       | _, _, _ => None
       end
   | ALoopEnqClosed =>
       match lp s, enq_nil s, enq s, enq_closed s with
-      | LRun, false, [], true => Some (exit_test (ev EvEnqClosed (set_enq_nil true s)))
+      | LRun, false, [], true => Some (exit_test (set_enq_nil true s) [EvEnqClosed])
       | _, _, _, _ => None
       end
   | ALoopDone i =>
       match lp s, nth_error (donec s) i with
       | LRun, Some (j, r) =>
           let js1 := upd j (jset_jdone true) (jobs s) in
-          let s1 := ev (EvDoneRecv j r)
-                      (set_ongoing (ongoing s - 1)%Z (set_pending (pending s - 1)%Z
-                      (set_donec (remove_nth i (donec s)) s))) in
+          let s1 := set_ongoing (ongoing s - 1)%Z (set_pending (pending s - 1)%Z
+                      (set_donec (remove_nth i (donec s)) s)) in
           match r with
           | Some e =>
               let js2 := upd j (jset_jerr (Some e)) js1 in
               if negb (ccoe c)
-              then Some (ev EvLoopExit (set_lp LDrain (set_serr [e] (set_jobs js2 s1))))
+              then Some (set_lp LDrain (set_serr [e] (set_jobs js2 s1)), [EvDoneRecv j r; EvLoopExit])
               else
                 let se := if is_err e then serr s ++ [e] else serr s in
                 let cs := consumers (nth j js2 jst0) in
                 let js3 := mark_invalid cs js2 in
                 let '(js4, wt, rd) := notify cs js3 (waiting s) (ready s) in
-                Some (exit_test (set_ready rd (set_waiting wt (set_jobs js4 (set_serr se s1)))))
+                Some (exit_test (set_ready rd (set_waiting wt (set_jobs js4 (set_serr se s1)))) [EvDoneRecv j r])
           | None =>
               let cs := consumers (nth j js1 jst0) in
               let '(js4, wt, rd) := notify cs js1 (waiting s) (ready s) in
-              Some (exit_test (set_ready rd (set_waiting wt (set_jobs js4 s1))))
+              Some (exit_test (set_ready rd (set_waiting wt (set_jobs js4 s1))) [EvDoneRecv j r])
           end
       | _, _ => None
       end
   | ALoopTick =>
       match lp s with
       | LRun =>
-          Some (exit_test (ev (EvTick (pending s) (Z.of_nat (length (ready s))) (waiting s)
-                                 (idle_workers (cN c) (ongoing s)) (Z.of_nat (cN c))) s))
+          Some (exit_test s [(EvTick (pending s) (Z.of_nat (length (ready s))) (waiting s)
+                                 (idle_workers (cN c) (ongoing s)) (Z.of_nat (cN c)))])
       | _ => None
       end
   | ALoopDrain =>
       match lp s, enq s with
-      | LDrain, k :: rest => Some (ev (EvDrained k) (set_enq rest s))
+      | LDrain, k :: rest => Some ((set_enq rest s), [(EvDrained k)])
       | _, _ => None
       end
   | ALoopFinish =>
       match lp s, enq s, enq_closed s with
-      | LDrain, [], true => Some (ev EvFinish (set_lp LFin s))
+      | LDrain, [], true => Some ((set_lp LFin s), [EvFinish])
       | _, _, _ => None
       end
   (* ---- workers (128-158) ---- *)
@@ -306,35 +307,41 @@ Definition step (c : cfg) (s : st) (a : act) : option st :=
       | WGot j =>
           let cx := jctx (spec c j) in
           if memc cx (cancelled s)
-          then Some (ev (EvSkip j (ECtx cx)) (set_workers (upd w (fun _ => WPost j (Some (ECtx cx))) (workers s)) s))
+          then Some ((set_workers (upd w (fun _ => WPost j (Some (ECtx cx))) (workers s)) s), [(EvSkip j (ECtx cx))])
           else if jinvalid (job s j)
-          then Some (ev (EvSkip j EInvalid) (set_workers (upd w (fun _ => WPost j (Some EInvalid)) (workers s)) s))
-          else Some (ev (EvStart j) (set_workers (upd w (fun _ => WRun j) (workers s)) s))
+          then Some ((set_workers (upd w (fun _ => WPost j (Some EInvalid)) (workers s)) s), [(EvSkip j EInvalid)])
+          else Some ((set_workers (upd w (fun _ => WRun j) (workers s)) s), [(EvStart j)])
       | _ => None
       end
   | AWorkerEnd w o =>
       match wk s w with
-      | WRun j => Some (ev (EvEnd j o) (set_workers (upd w (fun _ => WPost j (res_of o)) (workers s)) s))
+      | WRun j => Some ((set_workers (upd w (fun _ => WPost j (res_of o)) (workers s)) s), [(EvEnd j o)])
       | _ => None
       end
   | AWorkerPost w =>
       match wk s w with
       | WPost j r =>
           if length (donec s) <? cN c
-          then Some (ev (EvPost j) (set_workers (upd w (fun _ => WIdle) (workers s))
-                                      (set_donec (donec s ++ [(j, r)]) s)))
+          then Some ((set_workers (upd w (fun _ => WIdle) (workers s))
+                                      (set_donec (donec s ++ [(j, r)]) s)), [(EvPost j)])
           else None
       | _ => None
       end
   | AWorkerExit w =>
       match wk s w, lp s with
-      | WIdle, LFin => Some (ev (EvWExit w) (set_workers (upd w (fun _ => WExit) (workers s)) s))
+      | WIdle, LFin => Some ((set_workers (upd w (fun _ => WExit) (workers s)) s), [(EvWExit w)])
       | _, _ => None
       end
   (* ---- environment ---- *)
   | ACancel cx =>
       if memc cx (cancelled s) then None
-      else Some (ev (EvCancel cx) (set_cancelled (cx :: cancelled s) s))
+      else Some ((set_cancelled (cx :: cancelled s) s), [(EvCancel cx)])
+  end.
+
+Definition step (c : cfg) (s : st) (a : act) : option st :=
+  match stepc c s a with
+  | Some (k, evs) => Some {| core_of := k; log := rev evs ++ log s |}
+  | None => None
   end.
 
 Fixpoint run (c : cfg) (s : st) (acts : list act) : option st :=
@@ -398,29 +405,25 @@ Fixpoint events_eqb (a b : list event) : bool :=
   | [], [] => true | x :: a', y :: b' => event_eqb x y && events_eqb a' b' | _, _ => false
   end.
 
-(* The log is ghost state: [step] never reads it (lemma step_log_ghost in
-   SchedProofs.v).  Replay therefore runs every step from an emptied log, so
-   that the events the step appended are simply the new log, oldest first. *)
-Definition new_events (after : st) : list event := rev (log after).
-
+(* Replay works on [stepc] directly: the history is not part of [core]. *)
 Inductive replay_result :=
-| RpOk (s : st)
-| RpDisabled (n : nat) (s : st)                       (* n-th action not enabled in s *)
-| RpMismatch (n : nat) (s : st) (got : list event).   (* enabled, but the model's events differ *)
+| RpOk (s : core)
+| RpDisabled (n : nat) (s : core)                       (* n-th action not enabled in s *)
+| RpMismatch (n : nat) (s : core) (got : list event).   (* enabled, but the model's events differ *)
 
-Fixpoint replay (c : cfg) (s : st) (n : nat) (tr : list (act * list event)) : replay_result :=
+Fixpoint replay (c : cfg) (s : core) (n : nat) (tr : list (act * list event)) : replay_result :=
   match tr with
   | [] => RpOk s
   | (a, expect) :: rest =>
-      match step c (set_log [] s) a with
+      match stepc c s a with
       | None => RpDisabled n s
-      | Some s' =>
-          if events_eqb (new_events s') expect then replay c s' (S n) rest
-          else RpMismatch n s (new_events s')
+      | Some (s', evs) =>
+          if events_eqb evs expect then replay c s' (S n) rest
+          else RpMismatch n s evs
       end
   end.
 
 (* final states: everything the scheduler started has terminated *)
-Definition all_exited (s : st) : bool := forallb (fun w => match w with WExit => true | _ => false end) (workers s).
-Definition is_final (s : st) : bool :=
+Definition all_exited (s : core) : bool := forallb (fun w => match w with WExit => true | _ => false end) (workers s).
+Definition is_final (s : core) : bool :=
   match cp s, lp s with CRet _, LFin => all_exited s | _, _ => false end.
